@@ -323,6 +323,57 @@ theorem C12_first_eval (w : Wrapper) (hs : w.startOk = true) (hfix : w.objFixed 
   rw [objectFunc_inside _ _ _ _ _ _ (inBox_objBounds w hb expF logF pb _ hin)]
   rfl
 
+/-- the nine optimisers that take a start (`optimize_cons`, `optimize_log_powell`, `optimize_lbfgsb`, `optimize_log_lbfgsb` included) are rows
+    of the table, each with a start term of the well-formed shape, `fixed_params` handed on, objective bounds the caller's or absent -/
+theorem C12_start_coverage :
+    ∀ n ∈ ["optimize", "optimize_log", "optimize_lbfgsb", "optimize_log_lbfgsb", "optimize_log_fmin", "optimize_log_powell",
+           "optimize_cons", "opt[log_opt=False]", "opt[log_opt=True]"],
+      ∃ w ∈ wrappers, w.name = n ∧ w.start.isSome = true ∧ w.startOk = true ∧ w.objFixed = true ∧ w.objBoundsOk = true := by decide
+
+/-- **the start handed to the optimiser maps back to the user's `p0` on the free coordinates** — for EVERY wrapper row of the current
+    source that has a start, the generated start term evaluates (for every problem) to a vector `x0` which is the contracted `p0`
+    itself in natural parameterisation (exactly, no hypothesis), and `log` of it in log parameterisation, so that what the objective
+    does with it (`exp`) gives the contracted `p0` back wherever `exp ∘ log = id` (positive free start values) -/
+theorem C12_start_maps_back : ∀ w ∈ wrappers, ∀ s, w.start = some s → ∀ (expF logF : ℚ → ℚ) (pb : Problem),
+    ∃ x0, evalV expF logF pb [] s = some x0 ∧
+      (w.objLog = false → x0 = projectDownO pb.p0 pb.fixed) ∧
+      (w.objLog = true → x0 = (projectDownO pb.p0 pb.fixed).map logF ∧
+        ((∀ x, 0 < x → expF (logF x) = x) → (∀ x ∈ projectDownO pb.p0 pb.fixed, 0 < x) →
+          x0.map expF = projectDownO pb.p0 pb.fixed)) := by
+  intro w hw s hs expF logF pb
+  have hok := C12_start_table w hw (by simp [hs])
+  have he := start_eval w hok expF logF pb
+  rw [hs, Option.bind_some] at he
+  refine ⟨_, he, ?_, ?_⟩
+  · intro hl; simp [hl]
+  · intro hl
+    refine ⟨by simp [hl], ?_⟩
+    intro hexp hpos
+    have := untr_start w expF logF hexp (projectDownO pb.p0 pb.fixed) (fun _ => hpos)
+    simpa [hl] using this
+
+/-- … and expanding that again is the user's starting point: `p0` on the free coordinates, the fixed values on the others -/
+theorem C12_start_free_coords (pb : Problem) (fx : Fixed) (hfx : pb.fixed = some fx) (hlen : pb.p0.length = fx.length) :
+    projectDownO (startFull pb) pb.fixed = projectDownO pb.p0 pb.fixed ∧
+    ∀ (j : ℕ) (v : ℚ), fx[j]? = some (some v) → (startFull pb)[j]? = some v := by
+  simp only [startFull, hfx, projectDownO, projectUpO]
+  exact ⟨down_up fx _ (down_length fx pb.p0 hlen), fun j v hj => up_fixed fx _ j v hj⟩
+
+/-- **every local optimiser first evaluates the model at the user's starting point** — for every wrapper row of the current source
+    with a start (`C12_start_coverage` lists them), every optimiser that queries its start first (`hq`): the first model evaluation
+    is `p0` with the fixed values written over it.  Only hypotheses about the INPUT remain: the start lies in the box, and the free
+    start values are positive where the wrapper works in log parameters. -/
+theorem C12_first_eval_all : ∀ w ∈ wrappers, w.start.isSome = true →
+    ∀ (expF logF : ℚ → ℚ), (∀ x, 0 < x → expF (logF x) = x) → ∀ (pb : Problem) (m : ModelFn),
+    (w.objLog = true → ∀ x ∈ projectDownO pb.p0 pb.fixed, 0 < x) → InBoxP pb.lower pb.upper (startFull pb) →
+    ∀ (opt : Opt), (∀ s lo up, opt (some s) lo up [] = .query s) → ∀ (fuel : ℕ),
+    (runWrapper w expF logF pb m opt (fuel + 1)).run.evals.head? = some (startFull pb) := by
+  intro w hw hs expF logF hexp pb m hpos hin opt hq fuel
+  have hb := C12_bounds_table w hw
+  exact C12_first_eval w (C12_start_table w hw hs) hb.1 hb.2.1 expF logF hexp pb m hpos hin opt hq fuel
+
+example : ∃ w ∈ wrappers, w.name = "optimize_log_lbfgsb" ∧ w.start = some (.log (.down .p0)) := by decide
+
 /-! ### the returned vector and the reported optimum -/
 
 
@@ -422,7 +473,7 @@ theorem C12_checked_fixed (fx : Fixed) (v : List ℚ) :
     however narrow (`lb ≤ ub`), absent bounds included.  FALSE on the current tree for a box narrower than the two 1 % margins
     (`ub - 0.01|ub| < lb`: the second clamp pushes the value below the lower bound); before the owner's fix 9e42d50 also for
     negative bounds (`1.01*lb < lb`, F-12d). -/
-theorem C12_perturb (p : ℚ) (lb ub : Option ℚ) (h : ∀ l u, lb = some l → ub = some u → l ≤ u) :
+theorem C12_perturb_entry (p : ℚ) (lb ub : Option ℚ) (h : ∀ l u, lb = some l → ub = some u → l ≤ u) :
     (∀ l, lb = some l → l ≤ perturbEntry perturbSteps p lb ub) ∧ (∀ u, ub = some u → perturbEntry perturbSteps p lb ub ≤ u) := by
   cases lb with
   | none =>
@@ -455,5 +506,136 @@ theorem C12_perturb_pure : perturbMutatesBounds = false := by decide
 
 /-- `None` entries of the bound lists are turned into ∓inf before use; the draw has the documented shape -/
 theorem C12_perturb_shape : perturbNoneIsInf = true ∧ perturbDrawShapeOk = true := by decide
+
+/-- **perturbed starting points stay within the bounds — the whole call, every `fold`**: `perturbFold` is what the driver runs (the draw
+    `params * 2**(<generated exponent of fold and u>)`, then the generated clamp statements on every entry).  For every `fold`, every
+    vector of uniform variates, every function standing for `2**·`, every parameter vector, bound lists absent (`None`), with `None`
+    entries, negative, zero or positive, boxes however narrow (`lb ≤ ub` where both are present): every returned entry lies in its box. -/
+theorem C12_perturb (pow2 : ℚ → ℚ) (params us : List ℚ) (fold : ℚ) (lower upper : Option Bounds)
+    (hbox : ∀ i l u, optAt lower i = some l → optAt upper i = some u → l ≤ u) (i : ℕ) (v : ℚ)
+    (hv : (perturbFold pow2 params fold us lower upper)[i]? = some v) :
+    (∀ l, optAt lower i = some l → l ≤ v) ∧ (∀ u, optAt upper i = some u → v ≤ u) := by
+  obtain ⟨p, rfl⟩ := perturb_getElem? _ _ _ _ i v hv
+  exact C12_perturb_entry p _ _ (hbox i)
+
+/-- one value per parameter comes back -/
+theorem C12_perturb_length (pow2 : ℚ → ℚ) (params us : List ℚ) (fold : ℚ) (lower upper : Option Bounds) (h : us.length = params.length) :
+    (perturbFold pow2 params fold us lower upper).length = params.length := by
+  simp [perturbFold, perturb, h]
+
+/-- the exponent of 2 in the draw (generated from the source) stays within ±fold for a variate in [0, 1]: every entry is scaled by a
+    factor between 2^-fold and 2^fold before the clamps -/
+theorem C12_perturb_factor (fold u : ℚ) (hf : 0 ≤ fold) (h0 : 0 ≤ u) (h1 : u ≤ 1) :
+    -fold ≤ perturbExponent fold u ∧ perturbExponent fold u ≤ fold := by
+  simp only [perturbExponent]
+  constructor <;> nlinarith
+
+/-- non-vacuity: `None` list, `None` entry, negative bounds, a box narrower than the two 1 % margins, fold = 3 -/
+example : perturbFold (fun x => 1 + x * x) [2, -3, 1, 5] 3 [1/4, 3/4, 1/2, 0] none (some [some 4, some (-2), none, some 6])
+            = [4 * 99 / 100, -3 * (1 + 9/4), 1, 6 * 99 / 100] := by decide +kernel
+example : perturbFold (fun x => 1 + x * x) [1, -7] 3 [1, 0] (some [some (999/1000), some (-5)]) (some [some (1004/1000), some (-4)])
+            = [999/1000, -99/20] := by decide +kernel
+
+/-! ## `numpy.clip` in a result term -/
+
+/-- what `numpy.clip(x, lo, hi)` does to one entry: the result lies in `[lo, hi]`, and an entry already inside is unchanged — so a
+    clip against the box the optimiser was given changes nothing when the optimiser answers inside it, and a clip of a
+    natural-scale vector against LOG-transformed bounds (seed C12-5) is visible in the generated result term -/
+theorem C12_clip (x l u : ℚ) (hlu : l ≤ u) :
+    (∀ y, clipEntry x (.val l) (.val u) = some y → l ≤ y ∧ y ≤ u) ∧ (l ≤ x → x ≤ u → clipEntry x (.val l) (.val u) = some x) :=
+  ⟨fun y h => clipEntry_box x l u y hlu h, clipEntry_inside x l u⟩
+
+example : clipVec [1, 5, 3] (some [.val 2, .absent, .val 0]) (some [.val 4, .val 4, .absent]) = some [2, 4, 3] := by decide +kernel
+
+/-! ## grid search: nothing is assumed, `scipy.optimize.brute` is the enumeration `bruteOpt`
+
+`runGrid w … sl` (Model/Optim.lean) = the generated `optimize_grid` row around `bruteOpt (gridPoints sl)`: the grid is built from the
+slices as `numpy.mgrid` builds it, visited in C order (last axis fastest), the answer is the FIRST point with the smallest objective
+value.  The driver runs `runGridT` (element types: integer queries for a grid written with integers) on the caller's slices and K
+compares the order of the evaluations, every value, the answer and the returned pair with the real `optimize_grid`. -/
+
+/-- the grid-search row of the current source: no start, no bounds handed anywhere, natural parameters, `fixed_params` passed on,
+    result = `_project_params_up(xopt)`, second value = brute's optimum -/
+theorem C12_grid_table : ∀ w ∈ wrappers, w.optimizer = "scipy.optimize.brute" → w.gridOk = true := by decide
+
+/-- element types do not matter -/
+theorem C12_grid_dtype (w : Wrapper) (expF logF : ℚ → ℚ) (pb : Problem) (m : ModelFn) (sl : List GridSlice) :
+    runGridT w expF logF pb m sl = runGrid w expF logF pb m sl :=
+  C12_run_dtype _ _ _ w expF logF pb m _ _
+
+/-- **the model is evaluated exactly on the grid** — at every point of the product of the axes, in product order, each with the fixed
+    values folded in, and nowhere else -/
+theorem C12_grid_evals (w : Wrapper) (hg : w.gridOk = true) (expF logF : ℚ → ℚ) (pb : Problem) (m : ModelFn) (sl : List GridSlice) :
+    (runGrid w expF logF pb m sl).run.evals = (gridPoints sl).map (projectUpO · pb.fixed) := by
+  simp only [runGrid, runWrapper, runOpt_brute_all, wrapperObjective_grid w hg, Option.toList]
+  induction gridPoints sl with
+  | nil => rfl
+  | cons q qs ih => rw [List.flatMap_cons, ih]; rfl
+
+/-- **never outside the bounds** — the bounds of a grid search are its ranges: the free coordinates of every model evaluation lie in the
+    ranges of their slices (`a:b:mj` in [a, b], `a:b:s` in [a, b)), the other coordinates are the fixed values -/
+theorem C12_grid_in_range (w : Wrapper) (hg : w.gridOk = true) (expF logF : ℚ → ℚ) (pb : Problem) (m : ModelFn) (sl : List GridSlice)
+    (hwf : ∀ s ∈ sl, s.WF) (fx : Fixed) (hfx : pb.fixed = some fx) (hn : sl.length = nFree fx) :
+    ∀ e ∈ (runGrid w expF logF pb m sl).run.evals,
+      List.Forall₂ (fun x s => GridSlice.InRange s x) (projectDown e fx) sl ∧
+      ∀ (j : ℕ) (v : ℚ), fx[j]? = some (some v) → e[j]? = some v := by
+  intro e he
+  rw [C12_grid_evals w hg, List.mem_map] at he
+  obtain ⟨q, hq, rfl⟩ := he
+  have hq2 := gridPoints_inRange sl hwf q hq
+  have hlen : q.length = nFree fx := by rw [← hn, List.Forall₂.length_eq hq2]
+  simp only [hfx, projectUpO]
+  refine ⟨?_, fun j v hj => up_fixed fx q j v hj⟩
+  rw [down_up fx q hlen]
+  exact hq2
+
+/-- … and without fixed parameters the evaluation points themselves -/
+theorem C12_grid_in_range_free (w : Wrapper) (hg : w.gridOk = true) (expF logF : ℚ → ℚ) (pb : Problem) (m : ModelFn) (sl : List GridSlice)
+    (hwf : ∀ s ∈ sl, s.WF) (hfx : pb.fixed = none) :
+    ∀ e ∈ (runGrid w expF logF pb m sl).run.evals, List.Forall₂ (fun x s => GridSlice.InRange s x) e sl := by
+  intro e he
+  rw [C12_grid_evals w hg, List.mem_map] at he
+  obtain ⟨q, hq, rfl⟩ := he
+  simp only [hfx, projectUpO]
+  exact gridPoints_inRange sl hwf q hq
+
+/-- **returns parameters whose likelihood equals the reported optimum, and the best of the grid** — unconditionally (the search is
+    modelled, there is no optimiser hypothesis): for every grid with at least one point the run ends with a grid point `q` and its
+    own objective value `f`; the returned vector is `q` with the fixed values folded in; the objective recomputed at the RETURNED
+    vector is the REPORTED `f`; no grid point has a smaller objective; and every grid point visited BEFORE `q` has a strictly larger one
+    (`numpy.argmin`: the first minimum wins a tie) -/
+theorem C12_grid_optimum (w : Wrapper) (hg : w.gridOk = true) (expF logF : ℚ → ℚ) (pb : Problem) (m : ModelFn) (sl : List GridSlice)
+    (hne : gridPoints sl ≠ []) :
+    ∃ q ∈ gridPoints sl, ∃ f,
+      (runGrid w expF logF pb m sl).run.final = some (q, f) ∧
+      (runGrid w expF logF pb m sl).result = some (projectUpO q pb.fixed) ∧
+      (runGrid w expF logF pb m sl).reported = some f ∧
+      objectiveAtFull w expF logF pb m (projectUpO q pb.fixed) = f ∧
+      (∀ q' ∈ gridPoints sl, f ≤ objectiveAtFull w expF logF pb m (projectUpO q' pb.fixed)) ∧
+      ∃ pre post, gridPoints sl = pre ++ q :: post ∧
+        ∀ q' ∈ pre, f < objectiveAtFull w expF logF pb m (projectUpO q' pb.fixed) := by
+  have hg' := hg
+  simp only [Wrapper.gridOk, Bool.and_eq_true, beq_iff_eq, Bool.not_eq_true'] at hg'
+  obtain ⟨⟨⟨⟨⟨⟨⟨⟨_, _⟩, _⟩, _⟩, _⟩, hfix⟩, hlog⟩, _⟩, hres⟩ := hg'
+  obtain ⟨q, hq, hans, hmin, pre, post, hsplit, hpre⟩ := brute_spec (wrapperObjective w expF logF pb m) (gridPoints sl) hne
+  have hfin : (runGrid w expF logF pb m sl).run.final = some (q, (wrapperObjective w expF logF pb m q).1) := by
+    simp only [runGrid, runWrapper, runOpt_brute_all, hans]
+  have hat : ∀ x, objectiveAtFull w expF logF pb m (projectUpO x pb.fixed) = (wrapperObjective w expF logF pb m x).1 := by
+    intro x
+    have := C12_objective_at_full w hfix expF logF pb m x
+    simpa [hlog] using this
+  obtain ⟨h1, h2⟩ := C12_result w hres expF logF pb m _ _ q _ hfin
+  simp only [hlog, Bool.false_eq_true, if_false] at h1
+  refine ⟨q, hq, _, hfin, h1, h2, hat q, ?_, pre, post, hsplit, ?_⟩
+  · intro q' hq'; rw [hat]; exact hmin q' hq'
+  · intro q' hq'; rw [hat]; exact hpre q' hq'
+
+/-- non-vacuity of the grid theorems, on the generated row: a 2 × 3 grid (one axis written `0:1:2j`, one `1:4:1` with integers), a fixed
+    value in the middle, a likelihood with a tie — the first of the two best points comes back -/
+example : (wrappers.find? (·.optimizer == "scipy.optimize.brute")).map (fun w =>
+      let r := runGrid w id id ⟨[], none, none, some [none, some (1/2), none], 1⟩ (fun v => some (-(v.getD 2 0 - 2) * (v.getD 2 0 - 2)))
+                 [.count 0 1 2, .step 1 4 1 true]
+      (r.run.evals, r.result, r.reported)) =
+    some ([[0, 1/2, 1], [0, 1/2, 2], [0, 1/2, 3], [1, 1/2, 1], [1, 1/2, 2], [1, 1/2, 3]], some [0, 1/2, 2], some 0) := by decide +kernel
 
 end DadiVerif
